@@ -78,6 +78,13 @@ pub enum Kind {
         buf_a: u32,
         buf_b: u32,
     },
+    /// the read built-in on input that arrives in pieces: 0 backslash-newline
+    /// continuation, 1 `-r`, 2 a last line without newline, 3 field splitting
+    /// with the rest in the last variable, 4 a backslash-escaped blank
+    ReadForms {
+        variant: u8,
+        nap: u32,
+    },
     /// engine (p): an operation history on one pipe of the simulated kernel
     /// against the reference model (no shell involved)
     Pipes {
@@ -222,6 +229,10 @@ pub fn generate(rng: &mut Rng, tier: Tier) -> Case {
             quoted: rng.below(3) != 0,
             read_loop: rng.below(4) == 0,
             sink_buf: *rng.pick(&bufs()),
+        },
+        88 if rng.bool() => Kind::ReadForms {
+            variant: rng.below(5) as u8,
+            nap: rng.below(4),
         },
         85 => Kind::TwoReaders {
             n: pick_n(rng, tier),
@@ -433,6 +444,37 @@ fn render_body(c: &Case) -> (String, Option<String>) {
                 "{{ {prod}}} | {{ read a b; read c; echo \"[$a][$b][$c]\"; read d; echo \"eof=$?\"; }}\necho \"?=$?\"\n"
             );
             (script, Some(format!("[{a}][{b}][{cc}]\neof=1\n?=0\n")))
+        }
+        Kind::ReadForms { variant, nap } => {
+            let n = if *nap > 0 { format!("nap {nap}; ") } else { String::new() };
+            let (prod, cons, out) = match variant {
+                0 => (
+                    format!("printn 'ab\\'; {n}echo; {n}printn 'c'; {n}echo d"),
+                    "read x; echo \"[$x]\"; read y; echo \"eof=$?\"",
+                    "[abcd]\neof=1\n",
+                ),
+                1 => (
+                    format!("printn 'ab\\'; {n}echo; {n}echo cd"),
+                    "read -r x; echo \"[$x]\"; read -r y; echo \"[$y] ?=$?\"",
+                    "[ab\\]\n[cd] ?=0\n",
+                ),
+                2 => (
+                    format!("echo first; {n}printn 'la'; {n}printn 'st'"),
+                    "read x; read y; echo \"[$x][$y] ?=$?\"",
+                    "[first][last] ?=1\n",
+                ),
+                3 => (
+                    format!("printn 'a  b  '; {n}echo ' c d  '"),
+                    "read p q; echo \"[$p][$q] ?=$?\"",
+                    "[a][b   c d] ?=0\n",
+                ),
+                _ => (
+                    format!("printn 'a\\ '; {n}echo 'b c'"),
+                    "read p q; echo \"[$p][$q] ?=$?\"",
+                    "[a b][c] ?=0\n",
+                ),
+            };
+            (format!("{{ {prod}; }} | {{ {cons}; }}\necho \"?=$?\"\n"), Some(format!("{out}?=0\n")))
         }
         Kind::TwoWriters { count_a, count_b, len, relay } => {
             let mid = match relay {
@@ -821,6 +863,7 @@ impl Prop for C14 {
                     Kind::TwoReaders { .. } => "kind:two-readers-partition",
                     Kind::Wakers { .. } => "kind:waker-history",
                     Kind::Pipes { .. } => "kind:pipe-history",
+                    Kind::ReadForms { .. } => "kind:read-forms",
                 };
                 stats.count(kind, 1);
                 if k == 0 && stats.samples.len() < 3 && index % 7 == 0 {
@@ -975,6 +1018,11 @@ impl Prop for C14 {
             Kind::TwoReaders { n, s, chunk, buf_a, buf_b } => {
                 for m in smaller(*n) {
                     push(Kind::TwoReaders { n: m, s: *s, chunk: *chunk, buf_a: *buf_a, buf_b: *buf_b });
+                }
+            }
+            Kind::ReadForms { variant, nap } => {
+                if *nap > 0 {
+                    push(Kind::ReadForms { variant: *variant, nap: 0 });
                 }
             }
             Kind::Pipes { hist } => {
